@@ -48,7 +48,7 @@ CHECKS = {
         text="Lean theorems over one model of the SMTP client (sync and tokio are both compared to it) run against an arbitrary scripted "
              "peer: ehlo_first, one_command_then_its_reply, envelope_on_the_wire (MAIL with the exact reverse path and exactly the needed "
              "parameters, RCPT per recipient in order, DATA, content - or a prefix then at most QUIT), extension_required, mail_line_exact, "
-             "xtext_valid. Correspondence: the real SmtpConnection / AsyncSmtpConnection over loopback against a scripted peer for every "
+             "xtext_valid, command_lines_single (MAIL/RCPT/EHLO lines have no CR or LF but their terminator whenever the address / hello name has none). Correspondence: the real SmtpConnection / AsyncSmtpConnection over loopback against a scripted peer for every "
              "dialogue position x fault kind and random scripts, compared unit by unit; an independent acceptor of RFC 5321 client "
              "transcripts (Spec/Dialogue.lean) is applied to the real transcripts; custom parameter values for every octet.",
         design_ref="DESIGN.md 5 C04",
